@@ -10,6 +10,7 @@ holds tokens origin[i]; the basin map is a vector of SYMBOLIC indices, so
 """
 import itertools
 import json
+import types
 import random
 
 import numpy as np
@@ -336,7 +337,136 @@ def run_export(eng, p):
     return "ok"
 
 
+def run_export_hierarchy(eng, p):
+    """export of a hierarchy child (depth 1 or 2): the stored basin must map
+    every exported event to its ROOT event"""
+    N = 3
+    npx = SymNP()
+
+    def decide(tag, n):
+        return np.array([bool(eng.branch(eng.bool("%s%d" % (tag, i)).e))
+                         for i in range(n)], dtype=bool)
+
+    class P:
+        def __init__(self, s):
+            self.s = str(s)
+            self.name = self.s.rsplit("/", 1)[-1]
+            self.suffix = ".rtdc"
+
+        @property
+        def parent(self):
+            return P(self.s.rsplit("/", 1)[0])
+
+        def __truediv__(self, o):
+            return P(self.s + "/" + str(o))
+
+        def exists(self):
+            return False
+
+        def mkdir(self, **k):
+            pass
+
+        def resolve(self):
+            return self
+
+        def __fspath__(self):
+            return self.s
+
+        def __str__(self):
+            return self.s
+
+    class pathlib_shim:
+        Path = P
+    from dclab.rtdc_dataset.config import Configuration
+
+    class Node:
+        features_innate = []
+        logs, tables, basins = {}, {}, []
+
+        def __init__(self, fmt, parent, n, fbits):
+            self.format, self.hparent, self.n = fmt, parent, n
+            self.filter = types.SimpleNamespace(all=fbits)
+            self.path = P("/d/root.rtdc")
+            self.config = Configuration()
+            self.config["experiment"]["sample"] = "s"
+
+        def __len__(self):
+            return self.n
+
+        def get_root_parent(self):
+            return self if self.hparent is None else \
+                self.hparent.get_root_parent()
+
+        def get_measurement_identifier(self):
+            return "mid"
+    froot = decide("r", N)
+    root = Node("hdf5", None, N, froot)
+    rootids = [list(np.where(froot)[0])]
+    cur = root
+    for lvl in range(p["depth"]):
+        n = int(np.sum(cur.filter.all))
+        fb = decide("c%d_" % lvl, n)
+        child = Node("hierarchy", cur, n, fb)
+        cur = child
+    ds = cur
+    # root index of every event of ds
+    ids = list(range(N))
+    node, chain = ds, []
+    while node.hparent is not None:
+        chain.append(node.hparent.filter.all)
+        node = node.hparent
+    for fa in reversed(chain):
+        ids = [ids[i] for i in np.where(fa)[0]]
+    files = {}
+
+    class H5(symh5.File):
+        def __init__(self, path, mode="r", **kw):
+            symh5.File.__init__(self, str(path), "w")
+            files[str(path)] = self
+
+    class h5shim:
+        File, Group, Dataset, h5o = H5, symh5.Group, symh5.Dataset, symh5.h5o
+    Wr = sym_writer(np=npx, h5py=h5shim, pathlib=pathlib_shim)
+    # everything is concrete on a path (the filters were decided above):
+    # the export code runs with the real numpy, the real index mappers
+    ns = shadow(EX, RTDCWriter=Wr, pathlib=pathlib_shim,
+                get_basin_classes=lambda: {"hdf5": object})
+    with quiet():
+        ns["Export"](ds).hdf5("/d/out.rtdc", features=[],
+                              filtered=p["filtered"], basins=True)
+    out = files["/d/out.rtdc"]
+    out.closed = False
+    sel = [i for i in range(len(ds)) if ds.filter.all[i]] \
+        if p["filtered"] else list(range(len(ds)))
+    exp = [ids[i] for i in sel]
+    if not exp:
+        eng.reach()
+        return "empty"
+    defs = {}
+    for key in out["basins"].keys():
+        lines = [x.decode() if isinstance(x, bytes) else x
+                 for x in list(out["basins"][key].data)]
+        d = json.loads("\n".join(lines))
+        defs[d["name"]] = d
+    d = defs.get("Exported data (hierarchy)")
+    eng.prove(z3.BoolVal(d is not None), "hierarchy export: a basin "
+              "referring to the root dataset is stored")
+    if d is not None:
+        if d["mapping"] == "same":
+            got = list(range(len(exp)))
+        else:
+            got = [int(x) for x in list(out["events"][d["mapping"]].data)]
+        eng.prove(z3.BoolVal(got == exp),
+                  "hierarchy export: basin map == root indices of the "
+                  "exported events", info={"map": got, "expected": exp})
+    return "ok"
+
+
 def run_case(name, params):
+    if params["kind"] == "export_hierarchy":
+        eng = Engine(timeout_ms=20000)
+        eng.explore(lambda e: run_export_hierarchy(e, params))
+        return eng.stats()
     eng = Engine(timeout_ms=20000)
     fn = {"proxy": run_proxy, "store": run_store, "export": run_export}[
         params["kind"]]
@@ -367,6 +497,11 @@ def cases(tier, seed):
         for b in ("none", "both"):
             out.append(("export filtered=%s basins=%s" % (filtered, b),
                         dict(kind="export", filtered=filtered, basins=b)))
+    for depth in (1, 2):
+        for filtered in (True, False):
+            out.append(("export hierarchy child depth=%d filtered=%s" % (
+                depth, filtered), dict(kind="export_hierarchy", depth=depth,
+                                       filtered=filtered)))
     random.Random(seed).shuffle(out)
     return out
 
@@ -469,6 +604,47 @@ def replay(case, params, v):
                 key = "Export.hdf5|basins|" + (
                     "empty-selection-raises" if fails and "raised" in
                     fails[0] else "wrong-map")
+            elif p["kind"] == "export_hierarchy":
+                from dclab.rtdc_dataset.fmt_hierarchy import RTDC_Hierarchy
+                N = 3
+                with Wm.RTDCWriter(po, mode="reset") as hw:
+                    hw.store_feature("deform", np.linspace(.1, .2, N))
+                    hw.store_feature("area_um", np.linspace(50, 60, N))
+                    hw.store_metadata({"experiment":
+                                       {"run identifier": "rid"}})
+                with dclab.new_dataset(po) as root:
+                    root.filter.manual[:] = [bool(vals.get("r%d" % i, False))
+                                             for i in range(N)]
+                    root.apply_filter()
+                    cur, ids = root, list(np.where(root.filter.all)[0])
+                    for lvl in range(p["depth"]):
+                        ch = RTDC_Hierarchy(cur)
+                        ch.filter.manual[:] = [
+                            bool(vals.get("c%d_%d" % (lvl, i), False))
+                            for i in range(len(ch))]
+                        ch.apply_filter()
+                        cur = ch
+                        if lvl < p["depth"] - 1:
+                            ids = [ids[i] for i in np.where(
+                                ch.filter.all)[0]]
+                    sel = list(np.where(cur.filter.all)[0]) \
+                        if p["filtered"] else list(range(len(cur)))
+                    exp = [ids[i] for i in sel]
+                    if exp:
+                        cur.export.hdf5(pr, features=["deform"],
+                                        filtered=p["filtered"], basins=True)
+                        with dclab.new_dataset(pr) as ds2:
+                            got = ds2["area_um"][:]
+                            want = np.linspace(50, 60, N)[exp]
+                            if len(got) != len(want) or \
+                                    not np.allclose(got, want):
+                                fails.append(
+                                    "export of a depth-%d hierarchy child: "
+                                    "basin feature is %r, the root events of "
+                                    "the exported events give %r" % (
+                                        p["depth"], np.asarray(got).tolist(),
+                                        want.tolist()))
+                key = "Export.hdf5|hierarchy-basin-map"
             elif p["kind"] == "store":
                 import h5py
                 import json as _json
